@@ -30,10 +30,12 @@ func (r *runner) checkBeliefs() {
 			ss, ok := r.w.Sessions.GetByGlobalID(v.SessionID)
 			if !ok {
 				r.v("C07", "orphaned-join", "%s was told it joined session %s (%s) as participant %d, but that id does not resolve", c.Label, v.SessionID, v.UUID, v.PID)
+				r.v("C03", "live-session-cut-off", "%s is a member of session %s (%s), but the id does not resolve for anyone else", c.Label, v.SessionID, v.UUID)
 				continue
 			}
 			if ss.SessionUUID != v.UUID {
 				r.v("C07", "orphaned-join", "%s was told it joined session %s with uuid %s, but the id resolves to uuid %s", c.Label, v.SessionID, v.UUID, ss.SessionUUID)
+				r.v("C03", "live-session-cut-off", "%s is a member of session %s with uuid %s, but the id resolves to another session (%s)", c.Label, v.SessionID, v.UUID, ss.SessionUUID)
 				continue
 			}
 			found := false
